@@ -267,6 +267,7 @@ extern uint64_t g_cnt;
  * one range [p, p + g_cnt): effect of the algorithm on the tracked cell / token, stated exactly as ghost/l0.h does for the
  * std:: namesake; pre_p1 / pre_p2 are logical variables holding the pointer arguments at entry */
 extern E *pre_p1, *pre_p2;
+extern int g_int0;        /* logical variable for a pre-state int (e.g. the comparator token of the other operand) */
 extern void *g_other;   /* a second container object: the argument is either *this (g_alias) or this object */
 #define RANGE_LOC_OK(p) ((g_cell_obj != OBJ(p) || GRID_OK(g_cell_off, p)) && (!g_tok_on || g_tok_obj != OBJ(p) || GRID_OK(g_tok_off, p)))
 #define CNT_OF(n) ((n) > 0 ? (uint64_t)(n) : (uint64_t)0)
